@@ -39,6 +39,11 @@ func LongHistories() [][]ops.Op {
 		{{K: "put", P: "/f", C: "x"}, {K: "put", P: "/f", C: "T1025:2"}, {K: "mkdir", P: "/d"}, {K: "rename", P: "/f", Q: "/d/f"}, {K: "rename", P: "/d", Q: "/e"}, {K: "removeall", P: "/e"}},
 		{{K: "put", P: "/e", C: ""}, {K: "chtimes", P: "/e"}, {K: "chown", P: "/e"}, {K: "put", P: "/e", C: "T512:4"}, {K: "remove", P: "/e"}, {K: "put", P: "/e", C: "again"}},
 		{{K: "mkdirall", P: "/a/b/c"}, {K: "put", P: "/a/b/c/f", C: "deep"}, {K: "rename", P: "/a/b", Q: "/a/z"}, {K: "put", P: "/a/z/c/f", C: "H:/a/evil"}, {K: "removeall", P: "/a/z/c"}},
+		// a write handle that outlives its file (the update at Close is refused), followed by further calls
+		{{K: "put", P: "/keep", C: "T700"}, {K: "mkdir", P: "/d"}, {K: "hopen", P: "/gone", N: os.O_RDWR | os.O_CREATE, H: 0}, {K: "hwrite", H: 0, C: "soon gone"}, {K: "remove", P: "/gone"}, {K: "hclose", H: 0},
+			{K: "remove", P: "/keep"}, {K: "mkdir", P: "/after"}, {K: "rename", P: "/d", Q: "/e"}},
+		// the tape ends with a metadata-only update of an entry that is neither the newest nor the last written one
+		{{K: "mkdir", P: "/docs"}, {K: "put", P: "/docs/one", C: "T600"}, {K: "put", P: "/two", C: "xy"}, {K: "chmod", P: "/docs", N: 0o700}},
 		// a directory whose first child is a file of more than two blocks, followed by further entries in the same move / delete archive
 		{{K: "mkdir", P: "/d"}, {K: "put", P: "/d/a", C: "T1200"}, {K: "put", P: "/d/b", C: "x"}, {K: "mkdir", P: "/d/c"}, {K: "rename", P: "/d", Q: "/e"}, {K: "removeall", P: "/e/c"}},
 	}
